@@ -109,6 +109,8 @@ class C19(Property):
         'argument SHAPE x unit (0-d, 1-d, 2-d numpy grids, T x P meshes, in own and scaled / foreign units) for all relations: oracle only (`mode: grid`, '
         'element-wise the scalar oracle); the Lean model and the theorems are about scalars; python LISTS of quantities are refused by the plain-number mode '
         'itself (TypeError) and are not judged',
+        'the container / string / explicit-new_unit branches of chempy.units.to_unitless (14 statements never executed by C19: they are C09\'s; the nine relations '
+        'only pass floats, Quantity scalars / arrays and plain float arrays with new_unit=None)',
         'Henry / HenryWithUnits with units=None and quantity arguments, and density_from_concentration with units: oracle on default_units only, no model op',
     )
     anchors = (('chempy/properties/sulfuric_acid_density_myhre_1998.py', 'sulfuric_acid_density'),
